@@ -50,6 +50,14 @@ func controllerMessage(r *prng.R, kind string, o MsgOpt, try int) *rec.Rec {
 	switch kind {
 	case "hello":
 		m.SetL("elements", []*rec.Rec{rec.New("hello_versionbitmap").SetB("bitmaps", []byte{0, 0, 0, 0x12})})
+		if r.Chance(1, 2) { // further version-bitmap elements of 1..3 words appended to the constructor's default one
+			for n := r.Pick(1, 1, 2, 3); n > 0; n-- {
+				m.Add("elements", rec.New("hello_versionbitmap").SetB("bitmaps", r.Bytes(4*r.Pick(1, 2, 2, 3))))
+			}
+			if r.Bool() { // and the default element itself with more words
+				m.List("elements")[0].SetB("bitmaps", append([]byte{0, 0, 0, 0x12}, r.Bytes(4*r.Pick(1, 2))...))
+			}
+		}
 	case "echo_request", "echo_reply", "features_request", "get_config_request", "barrier_request", "nx_tlv_table_request":
 	case "set_config":
 		m.Set("flags", r.Bits(16)).Set("miss_send_len", r.Bits(16))
@@ -97,7 +105,7 @@ func controllerMessage(r *prng.R, kind string, o MsgOpt, try int) *rec.Rec {
 			}
 		}
 	case "port_mod":
-		m.Set("port_no", r.Bits(32)).SetB("hw_addr", patBytes(r, 6)).Set("config", r.Bits(32)).Set("mask", r.Bits(32)).Set("advertise", r.Bits(32))
+		m.Set("port_no", r.Bits(32)).SetB("hw_addr", patBytes(r, r.Pick(6, 6, 6, 6, 0, 8, 20, 1))).Set("config", r.Bits(32)).Set("mask", r.Bits(32)).Set("advertise", r.Bits(32))
 	case "mp_request":
 		t := []uint64{0, 1, 2, 3, 4, 5, 13}[r.Intn(7)]
 		m.Set("type", t).Set("flags", r.Bits(16))
@@ -133,6 +141,11 @@ func controllerMessage(r *prng.R, kind string, o MsgOpt, try int) *rec.Rec {
 			inner = []string{"flow_mod", "group_mod", "port_mod", "packet_out"}[r.Intn(4)]
 		}
 		m.Set("bundle_id", r.Bits(32)).Set("flags", r.Bits(16)).SetS("message", controllerMessage(r, inner, o, try))
+		if r.Chance(1, 3) { // experimenter properties as the API can build them: header only (no payload setter exists)
+			for n := r.Pick(1, 1, 2, 3); n > 0; n-- {
+				m.Add("properties", rec.New("bundle_property").Set("type", 0xffff).SetB("body", r.Bytes(8)))
+			}
+		}
 	}
 	return m
 }
